@@ -31,6 +31,7 @@ pub fn run_c06(o: &Opts) -> Report {
          (t, perturb(t)), (t, t parsed twice from its ASCII text), independent pairs; nested to depth<=5; \
          values built through the public variants: near-miss images whose own list holds a placeholder / whose index lies beyond the list \
          (same expanded sequence, different index), the placeholder as an ordinary component of every constructor, both orders, bare and nested; \
+         atoms that differ in the constructor only (same name) at one position of every constructor; a != b against a == b; \
          the same description rebuilt on another thread; \
          distinct = distinct canonical-form pairs; non-trivial = at least one side contains an unordered or symmetric node",
     );
@@ -153,6 +154,24 @@ pub fn run_c06(o: &Opts) -> Report {
             _ => push_c06(&mut rep, &mut cases, &Term::Negation(bx(&q)), &Term::Negation(bx(&p)), "image-near-miss-nested", &mut rng),
         }
     }
+    // atoms that differ in the constructor only and report the same name (A / $A / #A / ?A / ^A, +7 / the word 7, _ / a word
+    // named ""): bare, at one position of otherwise identical component lists of EVERY compound / statement constructor
+    // (the ordered ones compare through Vec ==, which std implements with `!=` per element), and one level deeper; both orders
+    for (x, y) in atom_kind_near_misses(&mut rng, &g) {
+        push_c06(&mut rep, &mut cases, &x, &y, "atom-kind-near-miss", &mut rng);
+        push_c06(&mut rep, &mut cases, &y, &x, "atom-kind-near-miss", &mut rng);
+        for kind in 7..30usize {
+            if let Some((a, b)) = same_context(kind, &mut rng, &g, &x, &y) {
+                push_c06(&mut rep, &mut cases, &a, &b, "atom-kind-near-miss-component", &mut rng);
+                if kind % 3 == 0 {
+                    let outer = *rng.pick(&[13usize, 14, 19, 7, 21, 22]);
+                    if let Some((a2, b2)) = same_context(outer, &mut rng, &g, &a, &b) {
+                        push_c06(&mut rep, &mut cases, &b2, &a2, "atom-kind-near-miss-nested", &mut rng);
+                    }
+                }
+            }
+        }
+    }
     // the placeholder as an ordinary component of every compound / statement constructor, against the same constructor
     // without it (variable arity) or with the operands exchanged (fixed arity), and against its own re-spelling
     for (p, q) in placeholder_compounds(&mut rng, &g) {
@@ -208,6 +227,11 @@ fn push_c06(rep: &mut Report, cases: &mut Vec<String>, a: &Term, b: &Term, strea
     }
     if (b == a) != got {
         bad("== is not symmetric", format!("a==b {} b==a {}", got, b == a));
+    }
+    // `!=` is the same relation read negatively (std's Vec / slice equality is written with it): an overriding `ne` must agree
+    #[allow(clippy::nonminimal_bool)]
+    if (a != b) == got || (b != a) == got {
+        bad("a != b is not the negation of a == b", format!("a==b {} a!=b {} b!=a {}", got, a != b, b != a));
     }
     if !(a == a) || !(b == b) {
         bad("== is not reflexive", "false".into());
@@ -449,6 +473,16 @@ pub fn run_c07(o: &Opts) -> Report {
         equal_implies_same_hash(&mut rep, &Term::new_set_extension(vec![p.clone(), z.clone()]), &Term::new_set_extension(vec![z.clone(), q.clone()]), "near-miss-pairs-nested");
         equal_implies_same_hash(&mut rep, &Term::Similarity(bx(p), bx(&z)), &Term::Similarity(bx(&z), bx(q)), "near-miss-pairs-nested");
         equal_implies_same_hash(&mut rep, &Term::Product(vec![z.clone(), q.clone()]), &Term::Product(vec![z.clone(), p.clone()]), "near-miss-pairs-nested");
+    }
+    // atoms that differ in the constructor only, at one position of otherwise identical ordered compounds / sets
+    for (x, y) in atom_kind_near_misses(&mut rng, &g) {
+        equal_implies_same_hash(&mut rep, &x, &y, "atom-kind-near-miss");
+        for kind in [13usize, 14, 15, 19, 7, 16, 22] {
+            if let Some((a, b)) = same_context(kind, &mut rng, &g, &x, &y) {
+                equal_implies_same_hash(&mut rep, &a, &b, "atom-kind-near-miss");
+                equal_implies_same_hash(&mut rep, &Term::new_set_extension(vec![b.clone()]), &Term::new_set_extension(vec![a.clone()]), "atom-kind-near-miss");
+            }
+        }
     }
     // "under the same hasher" does not depend on the thread: the same values hashed with a fresh DefaultHasher on a spawned
     // thread, and a HashSet / HashMap filled on another thread and looked up here
